@@ -282,6 +282,30 @@ def simplify(e):
     return go(e)
 
 
+def mentions_deep(prog, e, pred, depth=3):
+    """mentions(e, pred), also looking into the bodies (return expressions and call arguments) of closures that
+    occur in e: `x.and_then(|v| f(v))` mentions f"""
+    from .mirlib import Expr, Program
+    if mentions(e, pred):
+        return True
+    if depth <= 0:
+        return False
+    cls = []
+    mentions(e, lambda z: z[0] == "agg" and isinstance(z[1], str) and z[1].startswith("closure:") and cls.append(z[1][8:]) and False)
+    for q in cls:
+        if q not in prog.bodies:
+            continue
+        qex = Expr(prog, q)
+        for r in qex.returns():
+            if mentions_deep(prog, r, pred, depth - 1):
+                return True
+        for _, t in prog.calls(q):
+            z = ("call", Program.callee_name(t), tuple(qex.operand(a) for a in t["args"]), 0)
+            if pred(z):
+                return True
+    return False
+
+
 def uncast(e):
     e = strip(e)
     while e[0] == "cast":
